@@ -13,6 +13,7 @@ ASSUMPTIONS = [
     "histories dispatch any *ready* operation (not only the filtered ones) on any eligible machine",
     "probe sub-spaces call min_start_time/earliest_start_time on the last ready operation before every reading of the clock",
     "'second' sub-spaces: the clock properties in an episode that follows an earlier episode of every length and a reset()",
+    "'shared' sub-spaces install ONE filter object on two dispatchers with different histories and interleave their queries",
     "completed sets are read from completed_operations() and compared by operation id",
 ]
 STUBS = ["max", "min", "int (dispatcher module only)"]
@@ -44,6 +45,8 @@ def subspaces(tier):
     out += C.structure_subspaces(s3 + [(2, 2), (2, 1, 1)], 2, False, filter="none", probe=True)
     out += C.structure_subspaces(s3 + [(2, 2)], 2, False, canonical=True, filter="none", second=True)
     out += C.structure_subspaces(s3, 2, False, canonical=True, filter=["dominated_operations", "non_idle_machines"], second=True)
+    for comp in (["dominated_operations", "non_idle_machines"], ["non_immediate_operations", "non_idle_machines"], ["non_immediate_machines"]):
+        out += C.structure_subspaces(s3 + [(2, 2)], 2, False, canonical=True, filter=comp, shared=True)
     for f in BUILTIN:
         out += C.structure_subspaces(s4, 2, False, filter=[f])
         out += C.structure_subspaces(s3, 2, True, only_flexible=True, filter=[f])
@@ -71,13 +74,18 @@ def harness(eng, sp):
     filt = sp["filter"]
     filtered = filt != "none"
     inst, desc = D.build_instance(eng, sp["shape"], sp["machines"], dmin=1 if filtered else 0)
-    disp = Dispatcher(inst, ready_operations_filter=C.make_filter(filt) if filtered else None)
+    fobj = C.make_filter(filt) if filtered else None
+    disp = Dispatcher(inst, ready_operations_filter=fobj)
     twin = Dispatcher(inst) if filtered else None
+    other = Dispatcher(inst, ready_operations_filter=fobj) if sp.get("shared") else None   # same filter object, other history
     spec = Spec(desc)
     tag = "filtered" if filtered else "unfiltered"
 
     def read():
         try:
+            if other is not None:
+                disp.available_operations()
+                other.available_operations()
             if sp.get("probe"):
                 # other public time queries asked first must not influence the clock
                 ready = spec.ready_ops()
@@ -115,6 +123,9 @@ def harness(eng, sp):
         disp.dispatch(D.op_by_id(inst, op), m)
         if twin is not None:
             twin.dispatch(D.op_by_id(inst, op), m)
+        if other is not None and k % 2 == 1 and not other.schedule.is_complete():
+            o2 = other.raw_ready_operations()[-1]
+            other.dispatch(o2, o2.machines[-1])
         spec.apply(op, m)
         eng.reachable("transition")
         eng.reachable("state")
